@@ -1049,6 +1049,20 @@ class _Inliner:
                 h = self.target(call)
                 if h and h[1] == "tail":
                     m = _bind(h[0], call, h[3])
+                    # T = helper(.., T, ..) where the helper rebinds that parameter and returns
+                    # it: the parameter is T itself
+                    rv = h[2][-1].value
+                    if m is not None and isinstance(rv, ast.Name) and rv.id in m \
+                            and isinstance(m[rv.id], ast.Name) and isinstance(st, ast.Assign) \
+                            and len(st.targets) == 1 and isinstance(st.targets[0], ast.Name) \
+                            and st.targets[0].id == m[rv.id].id \
+                            and sum(isinstance(n, ast.Name) and n.id == m[rv.id].id
+                                    for a_ in list(m.values()) for n in ast.walk(a_)) == 1:
+                        body = self.splice((h[0], h[1], h[2][:-1], h[3]), m, st,
+                                           direct=(rv.id,))
+                        out.extend(body)
+                        self.changed = True
+                        continue
                     if m is not None:
                         body = self.splice((h[0], h[1], h[2][:-1], h[3]), m, st, keep=h[2][-1])
                         ret = body.pop()
@@ -1227,7 +1241,7 @@ class _Inliner:
         k = next(_counter)
         return {n: ast.Name(id=f"{n}__h{k}", ctx=ast.Load()) for n in _locals_of(body, params)}
 
-    def splice(self, h, m, at, keep=None):
+    def splice(self, h, m, at, keep=None, direct=()):
         fn, _kind, body, _ism = h
         if keep is not None:
             body = list(body) + [keep]
@@ -1250,7 +1264,8 @@ class _Inliner:
         stores = {n.id for s in body for n in ast.walk(s)
                   if isinstance(n, ast.Name) and isinstance(n.ctx, ast.Store)}
         for p in list(mapping):
-            if p in stores:       # parameter rebound inside the helper: bind it to a temporary
+            if p in stores and p not in direct:
+                # parameter rebound inside the helper: bind it to a temporary
                 nm = f"{p}__h{next(_counter)}"
                 pre.append(ast.copy_location(ast.Assign(
                     targets=[ast.Name(id=nm, ctx=ast.Store())], value=mapping[p]), at))
